@@ -87,7 +87,7 @@ TAB = 'Coq theorem over hand-written Gallina model + tables regenerated from the
 CLAIMED['C05'] = {
     'text': 'proof: for all texts, all matcher / transformer expressions and all sources, the Gallina model of the anchored string-matcher / '
             'string-transformer code (four equals strategies, three strip_space streaming loops, replace with -at and -preserve-new-lines, quantifiers, '
-            '&&/|| freezing, filter via C13) computes the whole-text meaning given in the reference manual (9 theorems closed under the global context: '
+            '&&/|| freezing, filter via C13) computes the whole-text meaning given in the reference manual (9 theorems closed under the global context (+ 5 source-tie theorems built and assumption-checked with this check): '
             'C05_matcher_correct, C05_transformer_correct, C05_equals_all_strategies, C05_replace_resplits_lines, C05_mem_buff_irrelevant, ...); Python re, '
             'str.upper/lower, str.isspace are universally quantified oracles with two stated library assumptions. Tie: ~3500 differential cases per quick run '
             '(real parsers + primitives in process on file and literal sources, and whole cases through MainProgram).',
@@ -115,7 +115,7 @@ CLAIMED['C09'] = {
             'tokens - mixed quoting is refuted, open known finding KF-C09-1; the line number of a syntax-error report is tested end to end, not proved): theorems over a '
             'model of shlex.read_token as configured, TokenStream, symbol_syntax.split, parse_string, the rich-string / here-document parser and the list loop: token '
             'boundaries, unterminated quote is an error, consume is total (no IndexError), split is THE leftmost decomposition, here-document body exact, unterminated '
-            'here-document is an error; token loops never skip an invalid head. 15 theorems closed under the global context (10 full, 1 partial, 4 refuted-by-witness: mixed quotes and three pre-fix behaviours).',
+            'here-document is an error; token loops never skip an invalid head. 15 theorems closed under the global context (+ 1 source-tie theorems built and assumption-checked with this check) (10 full, 1 partial, 4 refuted-by-witness: mixed quotes and three pre-fix behaviours).',
     'note': 'Model tied to the running code by ~8000 (quick) / 80000 (thorough) generated sources incl. end-to-end `file f = ...` runs, and by tables regenerated from the '
             'running interpreter (white-space set over all code points, reserved tokens, delimiters). str.isalnum is an oracle. The Python text is modelled, not verified. '
             'The predicate accepts two readings of "substituted except inside hard quotes" that differ only for a reference written across a fragment boundary.',
@@ -127,7 +127,7 @@ CLAIMED['C11'] = {
             'left-to-right substitution for all strings, no backward effect (pointwise and trace form), act process sees the act set and others the non-act set, timeout '
             'and cd persist forward incl. into cleanup after a failure; `env -of act` outside [setup] proved unobservable; the timeout and directory handed to a program that computes an '
             'env value; linked to the executor (Props/C11C01.v): the points at which the settings model executes instructions are exactly the main-step events of C01\'s full_execute, so '
-            '"later" is the proved execution order. 22 theorems closed under the global context. '
+            '"later" is the proved execution order. 16 theorems closed under the global context (+ 6 composition theorems and 7 source-tie theorems built and assumption-checked with this check). '
             'Tie: ~1200 histories with real probe processes + 4000 direct _expand_vars cases per quick run.',
     'note': 'Modelled, not verified: environ/impl.py appliers + _expand_vars (regex modelled), InstructionSettings / SetupSettingsBuilder, timeout, cd, executor per-instruction '
             'environment and act capture, phase order with halting. Trusted: the hand model, harness/c11.py, dash/env/pwd as probes. Timeout observed as the value handed to the '
@@ -140,7 +140,7 @@ CLAIMED['C12'] = {
             'root is absolute; without the guard they are refuted by witness - open known finding KF-C12-1, recorded in doc/BUGS.rst): option outside the accepted set is a '
             'syntax error for every configuration; validation accepts only well-formed tables and never crashes; a destination reached through a path-symbol chain of any '
             'length ending in home/act-home/result/absolute is rejected; -rel-cd is resolved at use; end-to-end theorem from argument syntax to the documented meaning. '
-            '15 theorems closed under the global context + 3 regenerated-table obligations.',
+            '15 theorems closed under the global context (+ 4 source-tie theorems built and assumption-checked with this check) + 3 regenerated-table obligations.',
     'note': 'Hand-written model of parse_path / parse_relativity / path ddvs+sdvs / reference restrictions / symbol_validation / relativity_root with pathlib join semantics; '
             'tied to the code on every run by tables regenerated from 13 live configuration objects, resolvers and instruction parsers, and by ~11000 differential cases at '
             'parser, instruction (every phase) and program level (home-directory snapshots). Tokenisation and symbol-reference splitting are outside the model; file-system '
@@ -164,7 +164,7 @@ CLAIMED['C17'] = {
             'OTHER process-global state in exactly_lib is checked by differential runs only): merge order (suite first, case first in cleanup) composed with the C01 schedule; '
             'standalone (--suite / beside exactly.suite) = in-suite handling; contents not inherited by sub-suites; a case changes no object that existed before it for every '
             'copy policy with a copy on each path, and every policy lacking a copy leaks (all 128 policies); world restored; a case behaves as if alone (refinement to a '
-            'store-free reference semantics); suite instruction objects shared across cases: stateless ones are independent, a caching one is refuted. 15 theorems closed under the global context.',
+            'store-free reference semantics); suite instruction objects shared across cases: stateless ones are independent, a caching one is refuted. 15 theorems closed under the global context (+ 1 source-tie theorems built and assumption-checked with this check).',
     'note': 'First-order store model of processors.py/_exe_conf_that_may_be_updated, executor.py copies, execution.py preserved_cwd/rmtree, suite_file_reading.py, '
             'accessor_resolver.py; modelled, not verified; tie = three differential experiments per run (real suites run three ways; real histories in every order vs '
             'fresh-process baselines; stub instructions mutating every handle through the public executor).',
@@ -174,7 +174,7 @@ CLAIMED['C19'] = {
     'text': 'proof (partial: termination of the OS process tree and wall-clock time are observed by real runs, not proved; bounds are in model time): the timeout handed to '
             'every process start site is the value of the last timeout instruction whose main ran before it, else the default; `none` lifts it from that point on only; the '
             'model is proved to simulate the C01 executor, so cleanup and sandbox removal after an expiry are corollaries of C01/C04; at most |cleanup| further steps run after '
-            'an expiry; regenerated site table: every process start site is known and passes a timeout. 9 theorems closed under the global context. Open known finding KF-C19-1 '
+            'an expiry; regenerated site table: every process start site is known and passes a timeout. 10 theorems closed under the global context (+ 6 composition theorems and 1 source-tie theorems built and assumption-checked with this check). Open known finding KF-C19-1 '
             '(a command forked by the shell of a `$` site survives the kill).',
     'note': 'Model/Timeout.v = Exec.partial_execute with InstructionSettings.timeout threaded through; subprocess.call(timeout=) contract is the explicit function `expires`. Tie: '
             'ast scan of every process start site under src/exactly_lib (fail-closed), in-process observation of the timeout reaching Popen.wait for every site kind through '
@@ -226,7 +226,7 @@ CLAIMED['C07'] = {
             'sequence; the document reader (default section, headers, comment/blank grouping, multi-line instructions as oracle extents, inclusion with the chain of including '
             'files) = the declarative reading "elements by governing header, in file order"; phase order irrelevant; source locations exact (first line, consumed lines, '
             'inclusion chain); error locations exact also when a parser raises after consuming input (directives, multi-line instructions); a malformed `including` is '
-            'reported at its own line; include is a splice; unknown section / inclusion cycle is an error; the reader terminates. 15 theorems closed under the global context, plus the composition with C01 '
+            'reported at its own line; include is a splice; unknown section / inclusion cycle is an error; the reader terminates. 16 theorems closed under the global context (+ 5 composition theorems and 1 source-tie theorems built and assumption-checked with this check), plus the composition with C01 '
             '(Props/C07C01.v): the executed test case is a function of the per-phase contents only, so permuting phase blocks gives the same execution trace and result for all '
             'instruction semantics, and the failing instruction named in an outcome is traced to its exact source line and inclusion chain.',
     'note': 'Hand-written model of parse_source.py and the document reader (document_parser._Impl/parse_file/_include_files/_add_raw_doc, element parsers, act parser, inclusion '
@@ -254,7 +254,7 @@ CLAIMED['C18'] = {
             'layer and Exception class, parse-time exceptions are SYNTAX_ERROR, HardErrorException is HARD_ERROR, INTERNAL_ERROR only from non-HardError exceptions, '
             'non-Exception BaseExceptions escape (refuted totality witness = KF-C18-3); python_evaluate classifies every integer expression as value / not-an-integer (pre-fix '
             'catch set refuted); replacement templates never internal (pre-fix refuted); obligations regenerated from the source (except chains read by an ast visitor, issubclass '
-            'table, 2.4k-row route table raised through the real program). 21 theorems closed under the global context. Open known findings KF-C18-2/3/4/5/8/12/13 are listed; FIX-C18-1..7 repaired.',
+            'table, 2.4k-row route table raised through the real program). 21 theorems closed under the global context (+ 5 composition theorems built and assumption-checked with this check). Open known findings KF-C18-2/3/4/5/8/12/13 are listed; FIX-C18-1..7 repaired.',
     'note': 'Hand-written model of the try/except chains of 20 anchored functions, of python_evaluate over Python integer arithmetic and of CPython\'s replacement-template parser; '
             'modelled, not verified; tied to the source on every run by (i) the class names of every except clause read from the source, (ii) every exception class raised through '
             'the real program at every site via a text-driven stub instruction/actor, (iii) differential runs of integer expressions, templates and ~2000 (quick) / ~33000 '
